@@ -91,6 +91,7 @@ def run(ctx):
         flags = sorted(v["flag"] for v in pv.buffers.values())
         ctx.check("C10.N1", "list-kind:%s" % short, flags == [checked], fn=path, file=fn["file"], nontrivial=False,
                   what="sibling uses the expected kind of move list", expected=[checked], found=flags)
+    n4(ctx, F)
     # N2
     drv = F.fn(DRIVER)
     env = hir.Env(drv["hir"], F)
@@ -145,3 +146,51 @@ def run(ctx):
     for v in ctx.violations[nv:]:
         v["rule"] = "C10.N3(" + v["rule"] + ")"
         v["key"] = "C10.N3|" + v["key"]
+
+
+def n4(ctx, F):
+    """Return census of the three search siblings: every `return` (and the tail) is one of the enumerated kinds, so that nothing
+    pre-empts the no-move leaf rule (a draw/shortcut return placed before it hides mates: the node never looks at its moves)."""
+    for path in SIBS:
+        fn = F.fn(path)
+        env = hir.Env(fn["hir"], F)
+        sym = hir.Sym(env, F)
+        body = fn["hir"]["body"]
+        rets = [(n, n.get("e")) for n, _ in hir.walk(body) if n.get("k") == "Ret"]
+        tail = hir.strip(body).get("expr")
+        kinds = []
+        unknown = []
+        for n, e in rets:
+            v = hir.resolve_consts(sym(e), F) if e is not None else ("unit",)
+            g = [(hir.fmt(hir.canon(x[1]), 200), x[2]) for x in (hir.guards_of(n, body, sym) or []) if x[0] == "if"]
+            gt = [t for t, p in g if p is True]
+            vt = hir.fmt(v, 160)
+            kind = None
+            if vt == "v1::None" and any("load(continue_running" in t for t in gt):
+                kind = "abort"
+            elif "from_residual" in vt:
+                kind = "abort-propagation"
+            elif vt in ("v1::Some(entry.score)",) and any(t.startswith("let(v1::Some, <K, V, S, A>::get(table, Game::hash(game))") for t in gt):
+                kind = "table-hit"
+            elif vt.startswith("v1::Some(search::get_best_move_score_depth_1(") and "(remaining_depth == 1)" in gt:
+                kind = "depth-1-dispatch"
+            elif vt.startswith("v1::Some(search::quiescence_search(") and "(remaining_depth == 0)" in gt:
+                kind = "quiescence-dispatch"
+            elif any(t.endswith("is_empty(moves)") for t in gt):
+                kind = "no-move-leaf"
+            elif vt == "beta" and ("(beta <= alpha)" in gt or "(alpha >= beta)" in gt):
+                kind = "beta-cutoff"
+            if kind is None:
+                unknown.append((hir.line(n), vt, gt[-2:]))
+            kinds.append(kind)
+        tail_t = hir.fmt(sym(tail), 60) if tail is not None else None
+        ok_tail = tail_t in ("alpha", "v1::Some(alpha)")
+        ctx.check("C10.N4", "only-enumerated-returns:%s" % path.split("::")[-1], not unknown and ok_tail, fn=path, file=fn["file"],
+                  line=unknown[0][0] if unknown else fn["span"][0],
+                  what="a search node returns through a path that is none of: abort, table hit, depth dispatch, no-move leaf, beta cut-off, "
+                       "final alpha. A shortcut return (draw recognition, repetition, pruning) placed before the no-move leaf means the node "
+                       "never looks at its moves, so a checkmate there is scored like any other position",
+                  expected="abort | table-hit | depth-1/quiescence dispatch | no-move leaf | beta-cutoff | tail alpha",
+                  found={"unknown returns": unknown, "tail": tail_t})
+        ctx.check("C10.N4", "leaf-rule-present:%s" % path.split("::")[-1], kinds.count("no-move-leaf") == 2, fn=path, file=fn["file"],
+                  what="the no-move leaf must have exactly its two outcomes (draw / mate score)", found=kinds.count("no-move-leaf"), nontrivial=False)
